@@ -658,7 +658,10 @@ func (s *BaseNodeService) reinitDKG(message storage.Message) error {
 		return fmt.Errorf("failed to get FSM dump")
 	}
 
-	if err := s.fsmService.SaveFSM(message.DkgRoundID, fsmDump); err != nil {
+	// under the id the file names, as everything above: the envelope's id is
+	// not authenticated either, and a round saved under it would replace an
+	// existing round of that id by the one built here
+	if err := s.fsmService.SaveFSM(req.DKGID, fsmDump); err != nil {
 		return fmt.Errorf("failed to SaveFSM: %w", err)
 	}
 
